@@ -264,7 +264,18 @@ def check_pem(case):
 
 @st.composite
 def accept_cases(draw):
-    kind = draw(st.sampled_from(["raw", "valid", "len", "otherlen", "x>=p", "nonresidue", "y-perturbed", "y-negated", "hybrid", "prefix", "coord-aliased"]))
+    kind = draw(st.sampled_from(["raw", "valid", "len", "otherlen", "x>=p", "nonresidue", "y-perturbed", "y-negated", "hybrid", "prefix", "coord-aliased", "coord-in-n..p"]))
+    if kind == "coord-in-n..p":
+        # a VALID point with a coordinate between the group order and the field prime (both SEC1 forms), and its
+        # neighbours: an appended byte, a flipped prefix
+        which, pt = draw(st.sampled_from(gen.high_coord_points()))
+        enc = ec.sec1_encode(pt, draw(st.booleans()))
+        how = draw(st.sampled_from(["as-is", "as-is", "as-is", "append", "hybrid"]))
+        if how == "append":
+            enc = enc + draw(st.sampled_from([b"\n", b"\x00", b" "]))
+        elif how == "hybrid" and len(enc) == 65:
+            enc = bytes([6 + (pt[1] & 1)]) + enc[1:]
+        return {"kind": kind, "b": enc.hex()}
     if kind == "raw":
         return {"kind": kind, "b": draw(gen.sized_binary(70)).hex()}
     if kind == "coord-aliased":
@@ -385,7 +396,7 @@ def _targets(tier):
     return [
         Target("sec1-roundtrip", check_roundtrip, strategy=lambda tier: st.fixed_dictionaries({"k": gen.scalars_valid()}), budget={"quick": 1200, "thorough": 25000}),
         Target("sec1-accept", check_accept, strategy=lambda tier: accept_cases(), budget={"quick": 4000, "thorough": 80000},
-               required=["nt:len65-prefix02", "nt:len33-prefix04", "nt:hybrid", "nt:x>=p", "nt:nonresidue", "nt:y-negated", "nt:coord-aliased", "nt:after-decoding-valid-base", "expect-accept", "expect-reject"]),
+               required=["nt:len65-prefix02", "nt:len33-prefix04", "nt:hybrid", "nt:x>=p", "nt:nonresidue", "nt:y-negated", "nt:coord-aliased", "nt:coord-in-n..p", "nt:after-decoding-valid-base", "expect-accept", "expect-reject"]),
         Target("wif", check_wif, strategy=lambda tier: wif_cases(), budget={"quick": 3000, "thorough": 60000},
                required=["nt:key-31-leading-zero-bytes", "nt:suffix", "nt:suffix>=57-bytes", "nt:after-same-key-other-type-network-suffix", "nt:wif-unknown-version", "nt:wif-mutated", "nt:bad-key-len", "nt:bad-key-range"]),
         Target("pem", check_pem, strategy=lambda tier: pem_cases(), budget={"quick": 320, "thorough": 6000},
